@@ -48,7 +48,7 @@ def enc_cell(v, ty):
         if t != int(t) or abs(t) > 2**52:
             raise Ungenerated(f"float {v} is not a half-integer")
         return {"f": int(t)}
-    if ty == "string":
+    if ty in ("string", "large_string"):
         return {"s": str(v)}
     if ty == "bool":
         return bool(v)
@@ -112,7 +112,7 @@ def enc_elem(v, ty):
         if t != int(t):
             raise Ungenerated(f"float {v}")
         return {"f": int(t)}
-    if ty == "string":
+    if ty in ("string", "large_string"):
         return {"s": str(v)}
     if ty == "bool":
         return bool(v)
